@@ -75,3 +75,24 @@ Section Forgotten.
     rewrite (wf_in_range t i W) by lia. cbn [negb]. reflexivity.
   Qed.
 End Forgotten.
+
+(* ZSTD_seekable_init* on an object that has been reading another archive (re-initialisation is documented): curFrame = (U32)-1,
+   decompressedOffset = (U64)-1; the decoder, zs->in and the hash state are whatever the previous archive left.  The first
+   read inside the new content is the read a fresh object makes. *)
+Definition reinit_state (prev : rstate) : rstate :=
+  nowhere 18446744073709551615 (d_frame prev) (d_prod prev) (d_fin prev) (r_acc prev) [].
+
+Lemma reinit_reads_like_fresh H content BUFF NOPROG t sfc prev dst len offset orc : wf_table t ->
+  offset < e_d (ent t (t_len t)) ->
+  seekable_decompress H content BUFF NOPROG t sfc (reinit_state prev) dst len offset orc =
+  seekable_decompress H content BUFF NOPROG t sfc rinit dst len offset orc.
+Proof.
+  intros W Hoff. unfold reinit_state.
+  change rinit with (nowhere 18446744073709551615 4294967295 0 false [] []).
+  now apply nowhere_is_forgotten.
+Qed.
+
+Lemma reinit_keeps_invariant content t prev : wf_table t -> Inv content t (reinit_state prev).
+Proof.
+  intros W. right. right. right. cbn [reinit_state nowhere r_cur]. pose proof (wf_small t W). lia.
+Qed.
